@@ -769,7 +769,7 @@ func init() {
 		sp := func() string { return []string{"", " ", "  "}[rng.Intn(3)] }
 		for i := 0; i < *n; i++ {
 			ev := exprEv{Ev: "expr", Parts: []exprPart{}, Vals: []int64{}}
-			var pieces []string
+			var pieces, prefix []string
 			np := 1 + rng.Intn(4)
 			for j := 0; j < np; j++ {
 				pt := exprPart{Coef: 1, P: diceP{Mn: -1, Mx: -1}}
@@ -799,6 +799,17 @@ func init() {
 				if pt.Fam == "fate" || pt.Fam == "coc" {
 					term = "(" + term + ")" // keep letters from fusing with neighbours
 				}
+				// a third of the terms are rolled inside a function body or a computed value (a nested VM running compiled code)
+				switch rng.Intn(6) {
+				case 0:
+					name := fmt.Sprintf("fn%d", j+1)
+					prefix = append(prefix, fmt.Sprintf("func %s() { %s }", name, term))
+					term = name + "()"
+				case 1:
+					name := fmt.Sprintf("cv%d", j+1)
+					prefix = append(prefix, fmt.Sprintf("&%s = %s", name, term))
+					term = name
+				}
 				piece := term
 				switch rng.Intn(4) {
 				case 0:
@@ -819,6 +830,9 @@ func init() {
 				pieces = append(pieces[:pos], append([]string{strconv.FormatInt(ev.Konst, 10)}, pieces[pos:]...)...)
 			}
 			ev.Src = strings.Join(pieces, sp()+"+"+sp())
+			if len(prefix) > 0 {
+				ev.Src = strings.Join(prefix, "; ") + "; " + ev.Src
+			}
 			var e1, e2 bool
 			ev.Lo, ev.LoMoved, e1 = evalExpr(ev.Src, -1, uint64(i))
 			for _, r := range rollLog {
